@@ -32,6 +32,10 @@ STUB_DOC = {
 }
 
 
+# harness modules that use items of other harness modules
+DEPS = {"auto": ["rewind"], "pool": ["key"], "idle": ["key", "pool"], "checkout": ["key", "pool"], "pool_service": ["key", "pool"]}
+
+
 @dataclass
 class H:
     name: str
@@ -91,7 +95,10 @@ def kani_env():
     return env
 
 
-def run_group(scratch: Scratch, hs, features, timeout_s, jobs, log):
+SWAP_LOOP = "_RINvNvNtCs8xvirJzNMvV_4core3ptr25swap_nonoverlapping_bytes26swap_nonoverlapping_chunksKj8_ECscrgiVT8UQOZ_6object.0"
+
+
+def run_group(scratch: Scratch, hs, features, timeout_s, jobs, log, cbmc_args=None, kani_args=None):
     """One `cargo kani` invocation over every harness wrapper currently in the scratch tree that
     belongs to `hs`. Returns {harness name: Result}."""
     out_json = scratch.path(f"kani-{abs(hash(features)) % 10000}.json")
@@ -103,6 +110,10 @@ def run_group(scratch: Scratch, hs, features, timeout_s, jobs, log):
         mp = modpath(h.module)
         full = (mp + "::" if mp else "") + "__verif_gen::" + h.name
         cmd += ["--harness", full]
+    if kani_args:
+        cmd += list(kani_args)
+    if cbmc_args:
+        cmd += ["--cbmc-args"] + list(cbmc_args)
     t0 = time.time()
     with open(log, "a") as lf:
         lf.write("$ " + " ".join(cmd[:16]) + f" ... ({len(hs)} harnesses)\n")
@@ -112,7 +123,8 @@ def run_group(scratch: Scratch, hs, features, timeout_s, jobs, log):
     wall = time.time() - t0
     results = {}
     if not os.path.exists(out_json):
-        tail = subprocess.run(["tail", "-n", "60", log], capture_output=True, text=True).stdout
+        errs = subprocess.run(["grep", "-n", "-A", "14", "^error", log], capture_output=True, text=True).stdout[:4000]
+        tail = errs or subprocess.run(["tail", "-n", "60", log], capture_output=True, text=True).stdout
         for h in hs:
             results[h.name] = Result(h, "inconclusive", "cargo kani produced no result file (build error?)\n" + tail)
         return results, wall
@@ -121,19 +133,19 @@ def run_group(scratch: Scratch, hs, features, timeout_s, jobs, log):
     for r in d.get("verification_results", {}).get("results", []):
         by_id[r["harness_id"].split("::")[-1]] = r
     pd = {x["harness_id"].split("::")[-1]: x["property_details"] for x in d.get("property_details", [])}
-    cb = {x["harness_id"].split("::")[-1]: x.get("cbmc_stats", {}) for x in d.get("cbmc", [])}
+    cb = {x["harness_id"].split("::")[-1]: (x.get("cbmc_stats") or {}) for x in d.get("cbmc", [])}
     ed = {x["harness_id"].split("::")[-1]: x for x in d.get("error_details", [])}
     for h in hs:
         r = by_id.get(h.name)
         if r is None:
             results[h.name] = Result(h, "inconclusive", "harness missing from Kani's result file")
             continue
-        props = pd.get(h.name, {})
-        stats = cb.get(h.name, {})
+        props = pd.get(h.name) or {}
+        stats = cb.get(h.name) or {}
         res = Result(h, "inconclusive")
-        res.props_total = props.get("total_properties", 0)
-        res.props_passed = props.get("passed", 0)
-        res.covers_sat = props.get("satisfied", 0)
+        res.props_total = props.get("total_properties") or 0
+        res.props_passed = props.get("passed") or 0
+        res.covers_sat = props.get("satisfied") or 0
         res.symex_s = stats.get("runtime_symex_s", 0.0) or 0.0
         res.solver_s = stats.get("runtime_decision_procedure_s", 0.0) or 0.0
         res.vccs = stats.get("vccs_generated", 0) or 0
@@ -146,7 +158,7 @@ def run_group(scratch: Scratch, hs, features, timeout_s, jobs, log):
         ]
         st = r.get("status")
         err = ed.get(h.name, {})
-        undetermined = props.get("undetermined", 0) + props.get("solver_error", 0)
+        undetermined = (props.get("undetermined") or 0) + (props.get("solver_error") or 0)
         real_fail = [c for c in res.failed_checks if c["status"] == "Failure"]
         bound_fail = [c for c in real_fail if c["category"] in ("unwind", "recursion") or "unwinding assertion" in c["description"]]
         if st == "Success" and not real_fail and not undetermined:
@@ -179,8 +191,9 @@ def build_scratch(tag, hs, facade=True, keep=False):
     s.populate()
     s.add_module("root")
     # modules whose accessors other harness modules use
-    s.add_module("rewind")
     for h in hs:
+        for dep in DEPS.get(h.module, []):
+            s.add_module(dep)
         s.add_wrapper(h.module, h.wrapper())
     s.finish()
     return s
